@@ -7,6 +7,11 @@
 -/
 import MW.Lemmas.PersistCrash
 import MW.Lemmas.PersistWorld
+import MW.Lemmas.Deepen3Frame
+import MW.Lemmas.Deepen3Crash
+import MW.Lemmas.Deepen3Pend
+import MW.Lemmas.Deepen3Task
+import MW.Lemmas.Deepen3Ex
 namespace MW.Props.C06
 open MW MW.Model.Ledger MW.Model.Persist MW.Spec.Persist MW.Lemmas.PersistOp MW.Lemmas.PersistFault MW.Lemmas.PersistCrash
 
@@ -90,6 +95,41 @@ def pinv_block_full : Prop :=
     ((opBlock env n b).run none P V).ok = true →
     BestInv ((opBlock env n b).run none P V).P ((opBlock env n b).run none P V).V ∧
     SyncWf ((opBlock env n b).run none P V).P
+
+/-- ROUND 3 — `pinv_block_full` PROVED with the one hypothesis it turned out to need. EVERY successful block
+    operation (direct extension, reorganisation with any number of disconnects and connects in one batch, stale
+    or duplicate notification) on ANY store — importing or removed wallets, no ledger invariant — keeps BestInv
+    and SyncWf. Built on the frame lemmas of MW.Lemmas.Deepen3Frame (`sp_rollback`: TxStore.Rollback and all it
+    calls never write the height table or synced-to; `disconnectBlock_syncedTo`, `disconnectDown_syncedTo`,
+    `alignNew_last`, `walkBack_last`, `connectAll_last`, `reorg_sync_spec`: through the three loops of `reorg`
+    only resetSyncedTo / putSyncedTo move synced-to, and a successful reorg ends synced to the announced block).
+    `hid`: a notification carrying the id of the follower's tip has the tip's height (an id names one block). -/
+theorem pinv_block_any (env : Env) (n : Nat) (b : Block) (P : PStore) (V : PVol) (hB : BestInv P V)
+    (hid : b.id = V.led.best.hash → b.height = V.led.best.height)
+    (hok : ((opBlock env n b).run none P V).ok = true) :
+    BestInv ((opBlock env n b).run none P V).P ((opBlock env n b).run none P V).V ∧
+    SyncWf ((opBlock env n b).run none P V).P :=
+  Lemmas.Deepen3.block_any_bestInv env n b P V hB hid hok
+
+/-- … and `hid` cannot be dropped: the literal `pinv_block_full` is FALSE in the model (a record with the tip's id
+    and a lower height field takes the reorganisation path, finds nothing to do and succeeds; the tip copy takes
+    the announced height). Machine-checked counterexample `Lemmas.Deepen3.cexP / cexV / cexB`. -/
+theorem pinv_block_full_refuted : ¬ pinv_block_full := fun h =>
+  Lemmas.Deepen3.cex_breaks (h {} 1 Lemmas.Deepen3.cexB Lemmas.Deepen3.cexP Lemmas.Deepen3.cexV
+    Lemmas.Deepen3.cex_bestInv rfl Lemmas.Deepen3.cex_ok).1
+
+/-- the hypotheses of `pinv_block_any` are satisfiable on a store OUTSIDE the ledger invariant (an importing
+    wallet, a removed wallet): a reorganisation B1 → C1 on such a store -/
+def pbP : PStore := { led := { sync := [(1, "B1"), (0, "G")], syncedTo := 1,
+                               status := [("W1", ⟨some 0, false⟩), ("W2", ⟨none, true⟩)] } }
+def pbV : PVol := { led := { best := ⟨1, "B1"⟩ } }
+def pbG : Block := ⟨"G", "", 0, []⟩
+def pbC1 : Block := ⟨"C1", "G", 1, []⟩
+def pbEnv : Env := { node := { chain := [pbG, pbC1], known := [("G", pbG), ("C1", pbC1)] } }
+example : BestInv pbP pbV ∧ (pbC1.id = pbV.led.best.hash → pbC1.height = pbV.led.best.height) ∧
+    ((opBlock pbEnv 1 pbC1).run none pbP pbV).ok = true ∧
+    ((opBlock pbEnv 1 pbC1).run none pbP pbV).P.led.sync = [(1, "C1"), (0, "G")] :=
+  ⟨(⟨rfl, rfl⟩ : BestInv pbP pbV), (fun h => absurd h (by decide)), by decide, by decide⟩
 
 /-- persistent invariant (keystore part): no skipped or duplicated address index, kept by NewAddress -/
 theorem pinv_newAddr (env : Env) (nA nB nC : Nat) (stk : Bool) (P : PStore) (V : PVol)
@@ -259,17 +299,22 @@ example : Lemmas.PersistWorld.RunOK Lemmas.Ledger.hxEnv Lemmas.Ledger.hxG Lemmas
   Lemmas.PersistWorld.hxRunOK
 example : Lemmas.Ledger.J Lemmas.Ledger.hxEnv Lemmas.Ledger.hxG Lemmas.Ledger.hxW0 := Lemmas.PersistWorld.hxJ0
 
-/-- WHAT `crash_equiv` STILL LACKS (kept as a statement; not proved):
-    (1) the bridge between the two formulations: `Model.Persist.crash` / `start` (height-driven catch-up with
-        the fast-forward, on store × key cache) and `PersistWorld.crashW` followed by handler steps (on C01's
-        world with a fixed keystore view) — `catchup_converges_partial` shows that Start's catch-up IS the
-        handling of the blocks above synced-to, but the two state spaces are not formally related;
-    (2) the `freshAt` exception WAS real (finding F2, repaired in the repository: Start now hands the node's
-        block at the highest common height to the follower when the synced block has left the node's
-        chain — `crash_preserves_J_repaired`);
-    (3) histories with address issuance (C01's `WorldI`), imports and removals (`AllReady` fails) and
-        unconfirmed transactions (the pending buckets are not functions of the chain).
-    The statement below is (1)+(3) for the persistence model's own histories. -/
+/-- THE ORIGINAL FULL STATEMENT (kept, type-checked). Status after round 3:
+    (1) the bridge `Model.Persist.crash` / `start` ↔ books of the node's chain: PROVED (`crash_start_reaches`);
+    (2) the `freshAt` exception was finding F2, repaired (D42); `crash_equiv` below uses Start WITH the resync;
+    (3) histories with address issuance and wallet creation, crashes at every commit boundary: PROVED
+        (`crash_equiv`, `crash_quiet_books`) for the CONFIRMED state; pending buckets under the quiet-point rule
+        with unconfirmed transactions: PROVED (`crash_equiv_pending`).
+    The statement below — equality of the WHOLE store, pending buckets and address records included, after a crash
+    at a NON-quiet boundary, for histories with arbitrary `node` / `block` / `removeMark` events and no hypothesis
+    on the chains — is not what holds: after a crash while the follower lags the two runs have seen different
+    event histories and their pending buckets legitimately differ (notes/C06.md, 'lagging follower', F1, reproduced
+    by the model); the address records are only tied by correspondence (C01 proves them forward only).
+    Still open: histories with import / removal events interleaved with crashes at NON-quiet points (`AllReady`
+    fails while a wallet is importing or flagged; `removal_resumes_same` / `import_resumes_same` cover crashes
+    between steps at quiet points), the fast-forward path of Start (no ready wallet, > 2000 blocks behind: corpus
+    test only), and `newAddr` / `create` events in `crash_equiv_pending`-style full-store equality at non-quiet
+    points (they are in `crash_equiv` for the confirmed state). -/
 def crash_equiv_full : Prop :=
   ∀ (n : Nat) (pre post : List Ev) (s : Sys),
     let s1 := runEvs n false s pre
@@ -298,6 +343,195 @@ theorem recvTx_fresh_congr (env : Env) (nR nW : Nat) (tx : Tx) (P : PStore) (V1 
       | error e => simp [opAddUnmined, ha]
       | ok s' => simp [opAddUnmined, ha]
 
+-- ------------------------------------------------------------------ ROUND 3: crash_equiv at every commit boundary
+
+open MW.Lemmas.Deepen3 in
+/-- THE BRIDGE (what `crash_equiv_full` lacked as item 1): `Model.Persist.crash` — boot, then the REAL Start of
+    the persistence model: resync step, fast-forward test, height-driven catch-up loop with the code's fuel,
+    initTaskChan — on a wallet that holds the books of ANY stored chain `S` (C01's `Inv`; every address owner
+    ready, one ready wallet): Start SUCCEEDS (no catch-up step fails, the fuel suffices, the resync step puts a
+    wallet on a stale branch back) and ends with the books of the node's WHOLE chain (`SInv … (length − 1)`),
+    tip copy = node tip, key cache = stored keystore, the re-queued tasks. -/
+theorem crash_start_reaches {st : Static} {G : Block} (E : StaticOK st G) {ks : AMap.T Wid KsRec} {chain : List Block}
+    (hN : Lemmas.Ledger.ChainOK (lenv st ks) G chain) (n : Nat) {P : PStore} {S : List Block} (hks : P.ks = ks)
+    (hI : Lemmas.Ledger.Inv ((lenv st ks).ctx chain) P.led S) (hS : Lemmas.Ledger.ChainOK (lenv st ks) G S)
+    (hAR : Lemmas.Ledger.AllReady (ownOf ks) (readyWallets P.led (walletsOf ks)))
+    (hne : (readyWallets P.led (walletsOf ks)).isEmpty = false) :
+    (crash (envAt st chain) n P).ok = true ∧
+    SInv st ks chain P.led (chain.length - 1) (crash (envAt st chain) n P).P (crash (envAt st chain) n P).V ∧
+    (crash (envAt st chain) n P).V.tasks = requeue (crash (envAt st chain) n P).P :=
+  crash_reaches E hN n hks hI hS hAR hne
+
+open MW.Lemmas.Deepen3 in
+/-- CRASH_EQUIV (goal 1). Histories of the persistence model itself (`SysQ`: node chain, VOLATILE notification
+    queue, store, volatile state; `EvQ`): node extends / reorganises to any branch, handler steps in any
+    interleaving (each the real `opBlock`: extension, reorganisation, stale and duplicate notifications),
+    CreateWallet, NewAddress, unconfirmed transactions (`recvTx`: delivered at any time, seen before or not — they
+    write pending buckets only, `JQ_recvTx`), and `crash` events — any number, after ANY event, i.e. at EVERY commit boundary,
+    quiet or not (the notification queue is lost; `Model.Persist.crash` runs boot + Start with the D42 resync).
+    The same history run with the crashes executed and with the crashes ignored: if the run that never stops ends
+    with nothing pending, so does the crashing run, on the same node chain, with the SAME keystore buckets and key
+    cache, the same tip copy and synced-to, extensionally equal confirmed buckets (credits, unspent index, debits,
+    deposit records, tx records, block records, height table) and the same balance for every wallet, all ready in
+    both runs. Hypotheses (`RunOK`, on the history's skeleton — chain, keystore, chains so far — which does not
+    depend on the crashes): C01's (`ChainOK` for every node chain w.r.t. the keystore view of the moment, a
+    reorganisation announces something, an address is issued before any chain pays it) plus: a newly derived
+    address is new to the keystore. `JQ` for the initial state: it holds the books of its node chain (C01's `Inv`),
+    exact key cache, all stored wallets ready, at least one. -/
+theorem crash_equiv {st : Static} {G : Block} (E : StaticOK st G) (n : Nat) (evs : List EvQ) (x0 : SysQ) (k0 : Skel)
+    (hJ : JQ st G x0 k0) (hR : RunOK st G k0 evs) (hq : (runQ st n false x0 evs).queue = []) :
+    (runQ st n true x0 evs).queue = [] ∧
+    (runQ st n true x0 evs).chain = (runQ st n false x0 evs).chain ∧
+    (runQ st n true x0 evs).P.ks = (runQ st n false x0 evs).P.ks ∧
+    (runQ st n true x0 evs).V.keys = (runQ st n false x0 evs).V.keys ∧
+    AMap.Equiv (runQ st n true x0 evs).P.led.credits (runQ st n false x0 evs).P.led.credits ∧
+    AMap.Equiv (runQ st n true x0 evs).P.led.unspent (runQ st n false x0 evs).P.led.unspent ∧
+    AMap.Equiv (runQ st n true x0 evs).P.led.debits (runQ st n false x0 evs).P.led.debits ∧
+    AMap.Equiv (runQ st n true x0 evs).P.led.game (runQ st n false x0 evs).P.led.game ∧
+    AMap.Equiv (runQ st n true x0 evs).P.led.txrecs (runQ st n false x0 evs).P.led.txrecs ∧
+    AMap.Equiv (runQ st n true x0 evs).P.led.blocks (runQ st n false x0 evs).P.led.blocks ∧
+    AMap.Equiv (runQ st n true x0 evs).P.led.sync (runQ st n false x0 evs).P.led.sync ∧
+    (runQ st n true x0 evs).P.led.syncedTo = (runQ st n false x0 evs).P.led.syncedTo ∧
+    (runQ st n true x0 evs).V.led.best = (runQ st n false x0 evs).V.led.best ∧
+    (∀ w ∈ walletsOf (runQ st n false x0 evs).P.ks,
+      AMap.get (runQ st n true x0 evs).P.led.balance w = AMap.get (runQ st n false x0 evs).P.led.balance w ∧
+      readyB (runQ st n true x0 evs).P.led w = true ∧ readyB (runQ st n false x0 evs).P.led w = true) :=
+  Lemmas.Deepen3.crash_equiv E n evs x0 k0 hJ hR hq
+
+open MW.Lemmas.Deepen3 in
+/-- … in absolute terms: whenever nothing is queued — crashed any number of times at any commit boundaries or
+    never — the wallet holds the books of the node's chain FOR THE KEYSTORE VIEW OF THAT MOMENT (addresses issued
+    and wallets created along the way included), tip copy = node tip, key cache exact -/
+theorem crash_quiet_books {st : Static} {G : Block} (E : StaticOK st G) (n : Nat) (cr : Bool) (evs : List EvQ) (x0 : SysQ)
+    (k0 : Skel) (hJ : JQ st G x0 k0) (hR : RunOK st G k0 evs) (hq : (runQ st n cr x0 evs).queue = []) :
+    Lemmas.Ledger.Inv ((lenv st (skRun st k0 evs).ks).ctx (skRun st k0 evs).chain) (runQ st n cr x0 evs).P.led
+        (skRun st k0 evs).chain ∧
+    (runQ st n cr x0 evs).V.led.best = Lemmas.Ledger.tipMeta (skRun st k0 evs).chain ∧
+    (runQ st n cr x0 evs).chain = (skRun st k0 evs).chain ∧
+    (runQ st n cr x0 evs).P.ks = (skRun st k0 evs).ks ∧ (runQ st n cr x0 evs).V.keys = (skRun st k0 evs).ks ∧
+    KeysOK (skRun st k0 evs).ks (runQ st n cr x0 evs).P.led :=
+  quiet_inv E n cr evs x0 k0 hJ hR hq
+
+open MW.Lemmas.Deepen3 in
+/-- every crash of such a history finds a wallet on which Start SUCCEEDS -/
+theorem crash_start_ok {st : Static} {G : Block} (E : StaticOK st G) (n : Nat) (evs : List EvQ) (x0 : SysQ) (k0 : Skel)
+    (hJ : JQ st G x0 k0) (hR : RunOK st G k0 evs) :
+    (crash (envAt st (runQ st n true x0 evs).chain) n (runQ st n true x0 evs).P).ok = true :=
+  Lemmas.Deepen3.crash_start_ok E n evs x0 k0 hJ hR
+
+open MW.Lemmas.Deepen3 in
+/-- a crash DURING Start, between any two commits of its resync / catch-up: every intermediate state of Start
+    (`SInv`) is a state from which boot + Start succeed and reach the books of the whole chain -/
+theorem crash_during_start {st : Static} {G : Block} (E : StaticOK st G) {ks : AMap.T Wid KsRec} {chain : List Block}
+    (hN : Lemmas.Ledger.ChainOK (lenv st ks) G chain) (n : Nat) {s0 : Store} {h : Nat} {P : PStore} {V : PVol}
+    (hS : SInv st ks chain s0 h P V) (hAR : Lemmas.Ledger.AllReady (ownOf ks) (readyWallets s0 (walletsOf ks)))
+    (hne : (readyWallets s0 (walletsOf ks)).isEmpty = false) :
+    (crash (envAt st chain) n P).ok = true ∧
+    SInv st ks chain P.led (chain.length - 1) (crash (envAt st chain) n P).P (crash (envAt st chain) n P).V :=
+  Lemmas.Deepen3.crash_during_start E hN n hS hAR hne
+
+/-- the steps of these histories ARE the steps of `stepEv` (MW.Spec.Persist) on the same `Sys`: a handler step is
+    the event `block b` for the oldest queued notification, and so on — `crash_equiv` speaks about the same
+    operations as `crash_equiv_partial` -/
+theorem crash_equiv_same_steps (st : Lemmas.Deepen3.Static) (n : Nat) (cr : Bool) (x : Lemmas.Deepen3.SysQ) :
+    (∀ b q, x.queue = b :: q → (Lemmas.Deepen3.stepQ st n cr x .handle).sys st = stepEv n cr (x.sys st) (.block b)) ∧
+    (∀ w, (Lemmas.Deepen3.stepQ st n cr x (.create w)).sys st = stepEv n cr (x.sys st) (.create w)) ∧
+    (∀ w stk, (Lemmas.Deepen3.stepQ st n cr x (.newAddr w stk)).sys st = stepEv n cr (x.sys st) (.newAddr w stk)) ∧
+    (Lemmas.Deepen3.stepQ st n cr x .crash).sys st = stepEv n cr (x.sys st) .crash :=
+  ⟨fun b q h => Lemmas.Deepen3.stepQ_handle_sys st n cr x b q h, fun w => Lemmas.Deepen3.stepQ_create_sys st n cr x w,
+   fun w stk => Lemmas.Deepen3.stepQ_newAddr_sys st n cr x w stk, Lemmas.Deepen3.stepQ_crash_sys st n cr x⟩
+
+/-- the hypotheses of `crash_equiv` are satisfiable — history with an address issued while a notification is
+    pending, a wallet created in mid-history, a reorganisation and TWO crashes at NON-quiet commit boundaries (the
+    second one with the wallet on a stale branch at the node's height: the F2 situation) — and the computed end
+    states are the expected ones (MW.Lemmas.Deepen3Ex) -/
+example : Lemmas.Deepen3.StaticOK Lemmas.Deepen3.exSt Lemmas.Ledger.hxG := Lemmas.Deepen3.exStaticOK
+example : Lemmas.Deepen3.JQ Lemmas.Deepen3.exSt Lemmas.Ledger.hxG Lemmas.Deepen3.exX0 Lemmas.Deepen3.exK0 :=
+  Lemmas.Deepen3.exJQ0
+example : Lemmas.Deepen3.RunOK Lemmas.Deepen3.exSt Lemmas.Ledger.hxG Lemmas.Deepen3.exK0 Lemmas.Deepen3.exEvs :=
+  Lemmas.Deepen3.exRunOK
+example : (Lemmas.Deepen3.runQ Lemmas.Deepen3.exSt 1 false Lemmas.Deepen3.exX0 Lemmas.Deepen3.exEvs).queue = [] :=
+  Lemmas.Deepen3.exQuietT
+
+/-- THE PENDING BUCKETS (quiet-point rule; histories of `Ev` extended by unconfirmed transactions): every crash
+    at a quiet point of the crashing run, every delivered unconfirmed transaction in neither run's volatile
+    seen-set (assumption A3): after every event the two runs have the SAME store — all buckets, the pending ones
+    (pending, pendIns, pendCred, pendGame) included — and VEq volatile states. For crashes at non-quiet points the
+    pending buckets are NOT comparable (the two runs have seen different event histories: notes/C06.md, 'lagging
+    follower', finding F1) — that part of `crash_equiv_full` is false, not open. -/
+theorem crash_equiv_pending (n : Nat) (evs : List Lemmas.Deepen3.EvP) (s : Sys)
+    (hq : Lemmas.Deepen3.okP n s s evs = true) :
+    CrashRel (Lemmas.Deepen3.runP n true s evs) (Lemmas.Deepen3.runP n false s evs) :=
+  Lemmas.Deepen3.runP_rel n evs s s hq ⟨rfl, rfl, vEq_refl s.V⟩
+
+-- ------------------------------------------------------------------ ROUND 3: resumed tasks reach the same final store
+
+/-- REMOVAL_RESUMES, full form (goal 3): one iteration of asyncRemove is the `Op` `opRemoveStep` whose ledger
+    effect is C08's proved `Model.Remove.removeStep`; the worker is `removeLoop`. A crash between ANY two
+    iterations (`removeLoop_split`: the uninterrupted removal = its first k iterations, then the rest from the
+    state they reached), at a quiet point: Start succeeds without touching the store, the task is queued again,
+    the restarted worker reads the same script hashes from the reloaded cache, and for every number of remaining
+    iterations the resumed removal ends with EXACTLY the store of the uninterrupted one. (C08's `remove_resumes` /
+    `run_done_clean` say that this common run terminates and erases the wallet.) -/
+theorem removal_resumes_same (limit nR n : Nat) (env : Env) (w : Wid) (P : PStore) (V : PVol) (stt : WStatus)
+    (hk : V.keys = P.ks) (hq : env.node.tipHeight = P.led.syncedTo) (ht : tipOnB env P = true)
+    (hst : (w, stt) ∈ P.led.status) (hr : stt.removed = true) :
+    (crash env n P).ok = true ∧ (crash env n P).P = P ∧ Task.rem w ∈ (crash env n P).V.tasks ∧
+    Lemmas.Deepen3.addrsOf (crash env n P).V.keys w = Lemmas.Deepen3.addrsOf V.keys w ∧
+    ∀ f, (Lemmas.Deepen3.removeLoop limit nR env w (Lemmas.Deepen3.addrsOf (crash env n P).V.keys w) f P (crash env n P).V).map (·.1) =
+      (Lemmas.Deepen3.removeLoop limit nR env w (Lemmas.Deepen3.addrsOf V.keys w) f P V).map (·.1) :=
+  Lemmas.Deepen3.removal_resumes_same limit nR n env w P V stt hk hq ht hst hr
+
+theorem removal_split (limit nR : Nat) (env : Env) (w : Wid) (addrs : List Addr) (k m : Nat) (P Pk : PStore) (V Vk : PVol)
+    (h : Lemmas.Deepen3.removePrefix limit nR env w addrs k P V = some (Pk, Vk)) :
+    Lemmas.Deepen3.removeLoop limit nR env w addrs (k + m) P V = Lemmas.Deepen3.removeLoop limit nR env w addrs m Pk Vk :=
+  Lemmas.Deepen3.removeLoop_split limit nR env w addrs k m P Pk V Vk h
+
+/-- … from the start of the task: a removal started at a quiet point and interrupted by a crash after ANY number
+    `k` of iterations (`removePrefix_frame`: a non-finishing iteration leaves keystore, cache, status, height table
+    and synced-to alone — C08's `removeRelevantTx_spec` — so the state reached is again a quiet point): the resumed
+    removal ends, for every `m`, with exactly the store of the uninterrupted `removeLoop (k + m)` from the start -/
+theorem removal_resumes_anywhere (limit nR n : Nat) (env : Env) (w : Wid) (P0 : PStore) (V0 : PVol)
+    (stt : WStatus) (r : KsRec) (hk : V0.keys = P0.ks) (hr : AMap.get P0.ks w = some r)
+    (hq : env.node.tipHeight = P0.led.syncedTo) (ht : tipOnB env P0 = true)
+    (hst : (w, stt) ∈ P0.led.status) (hrm : stt.removed = true)
+    (k : Nat) (Pk : PStore) (Vk : PVol)
+    (hpre : Lemmas.Deepen3.removePrefix limit nR env w (Lemmas.Deepen3.addrsOf V0.keys w) k P0 V0 = some (Pk, Vk)) :
+    (crash env n Pk).ok = true ∧ (crash env n Pk).P = Pk ∧ Task.rem w ∈ (crash env n Pk).V.tasks ∧
+    ∀ m, (Lemmas.Deepen3.removeLoop limit nR env w (Lemmas.Deepen3.addrsOf (crash env n Pk).V.keys w) m Pk
+            (crash env n Pk).V).map (·.1) =
+         (Lemmas.Deepen3.removeLoop limit nR env w (Lemmas.Deepen3.addrsOf V0.keys w) (k + m) P0 V0).map (·.1) :=
+  Lemmas.Deepen3.removal_resumes_anywhere limit nR n env w P0 V0 stt r hk hr hq ht hst hrm k Pk Vk hpre
+
+/-- the same for a rescan: interrupted after ANY number `k` of batches (`importStep_frame`: a batch never writes
+    the height table or synced-to and keeps the wallet's `removed` flag; the tip copy is not moved) -/
+theorem import_resumes_anywhere (batch n : Nat) (env : Env) (w : Wid) (P0 : PStore) (V0 : PVol)
+    (ws : WStatus) (hb : BestInv P0 V0) (hk : V0.keys = P0.ks) (hq : env.node.tipHeight = P0.led.syncedTo)
+    (ht : tipOnB env P0 = true) (hws : AMap.get P0.led.status w = some ws) (hrm : ws.removed = false)
+    (k : Nat) (Pk : PStore) (Vk : PVol) (hpre : Lemmas.Deepen3.importPrefix batch n env w k P0 V0 = some (Pk, Vk))
+    (hnd : Lemmas.Deepen3.importDone Pk w = false) :
+    (crash env n Pk).ok = true ∧ (crash env n Pk).P = Pk ∧ Task.imp w ∈ (crash env n Pk).V.tasks ∧
+    ∀ m, (Lemmas.Deepen3.importLoop batch n env w m Pk (crash env n Pk).V).map (·.1) =
+         (Lemmas.Deepen3.importLoop batch n env w (k + m) P0 V0).map (·.1) :=
+  Lemmas.Deepen3.import_resumes_anywhere batch n env w P0 V0 ws hb hk hq ht hws hrm k Pk Vk hpre hnd
+
+/-- IMPORT_RESUMES, full form: one batch of asyncImport is the `Op` `opImportStep` (ledger effect = C07's
+    `Model.Import.importStep`); a crash between any two batches at a quiet point: the task is queued again and
+    the resumed rescan ends, for every number of remaining batches, with exactly the store of the uninterrupted
+    one (`import_run_exact` of C07 says what that store has scanned). -/
+theorem import_resumes_same (batch n : Nat) (env : Env) (w : Wid) (P : PStore) (V : PVol) (stt : WStatus)
+    (hb : BestInv P V) (hk : V.keys = P.ks) (hq : env.node.tipHeight = P.led.syncedTo) (ht : tipOnB env P = true)
+    (hst : (w, stt) ∈ P.led.status) (hr : stt.removed = false) (hi : stt.synced.isSome = true) :
+    (crash env n P).ok = true ∧ (crash env n P).P = P ∧ Task.imp w ∈ (crash env n P).V.tasks ∧
+    ∀ f, (Lemmas.Deepen3.importLoop batch n env w f P (crash env n P).V).map (·.1) =
+      (Lemmas.Deepen3.importLoop batch n env w f P V).map (·.1) :=
+  Lemmas.Deepen3.import_resumes_same batch n env w P V stt hb hk hq ht hst hr hi
+
+theorem import_split (batch n : Nat) (env : Env) (w : Wid) (k m : Nat) (P Pk : PStore) (V Vk : PVol)
+    (h : Lemmas.Deepen3.importPrefix batch n env w k P V = some (Pk, Vk)) :
+    Lemmas.Deepen3.importLoop batch n env w (k + m) P V = Lemmas.Deepen3.importLoop batch n env w m Pk Vk :=
+  Lemmas.Deepen3.importLoop_split batch n env w k m P Pk V Vk h
+
 -- ------------------------------------------------------------------ non-vacuity
 
 def g : Block := ⟨"G", "", 0, []⟩
@@ -315,5 +549,49 @@ example : (runEvs 2 true s0 hist).P.led.syncedTo = 1 ∧ ((runEvs 2 true s0 hist
 example : (crash { s0.env with node := nd1 } 2 s0.P).ok = true ∧ (crash { s0.env with node := nd1 } 2 s0.P).P.led.syncedTo = 1 ∧
     (crash { s0.env with node := nd1 } 2 s0.P).commits = 2 := by decide
 example : BestInv s0.P s0.V ∧ SyncWf s0.P := ⟨⟨rfl, rfl⟩, rfl⟩
+
+
+/-- ROUND 3 — the hypotheses of `removal_resumes_same` / `import_resumes_same` are satisfiable: a wallet flagged for
+    removal (resp. importing) in a store at a quiet point; the crash re-queues the task, and the resumed worker
+    finishes the removal -/
+def sRem : Sys := runEvs 2 false s0 [.create "W1", .removeMark "W1"]
+example : sRem.V.keys = sRem.P.ks ∧ sRem.env.node.tipHeight = sRem.P.led.syncedTo ∧ tipOnB sRem.env sRem.P = true ∧
+    (("W1", ⟨none, true⟩) : Wid × WStatus) ∈ sRem.P.led.status := by decide
+example : Task.rem "W1" ∈ (crash sRem.env 2 sRem.P).V.tasks ∧
+    ((Lemmas.Deepen3.removeLoop 10 2 sRem.env "W1" (Lemmas.Deepen3.addrsOf (crash sRem.env 2 sRem.P).V.keys "W1") 3 sRem.P
+      (crash sRem.env 2 sRem.P).V).map (fun r => r.1.ks)) = some [] := by decide
+def pImp : PStore :=
+  { led := { sync := [(0, "G")], syncedTo := 0, status := [("W9", ⟨some 0, false⟩)], balance := [("W9", 0)] },
+    ks := [("W9", { next := 1, addrs := [(0, "a9")] })] }
+example : BestInv pImp (bootVol pImp) ∧ (bootVol pImp).keys = pImp.ks ∧ s0.env.node.tipHeight = pImp.led.syncedTo ∧
+    tipOnB s0.env pImp = true ∧ (("W9", ⟨some 0, false⟩) : Wid × WStatus) ∈ pImp.led.status :=
+  ⟨(⟨rfl, rfl⟩ : BestInv pImp (bootVol pImp)), rfl, rfl, rfl, by decide⟩
+
+
+/-- the hypotheses of `crash_start_reaches` / `crash_during_start` are satisfiable: wallet w1 at genesis (books of
+    `[G]`, resp. the Start state `SInv … 0`), node at G–b1–d2: boot + Start catch up two blocks -/
+example : (crash (Lemmas.Deepen3.envAt Lemmas.Deepen3.exSt [Lemmas.Ledger.hxG, Lemmas.Ledger.hxB1, Lemmas.Ledger.ixD2]) 1
+    Lemmas.Deepen3.exX0.P).ok = true :=
+  (crash_start_reaches Lemmas.Deepen3.exStaticOK
+    (Lemmas.Deepen3.exOK Lemmas.Deepen3.exKs0 Lemmas.Ledger.ixD2 (Or.inl rfl) Lemmas.Deepen3.exValid0) 1 rfl
+    ((Lemmas.Ledger.inv_env_chain (Lemmas.Deepen3.lenv Lemmas.Deepen3.exSt Lemmas.Deepen3.exKs0) _ _).1 Lemmas.Deepen3.exInv0)
+    ((Lemmas.Deepen3.exOK Lemmas.Deepen3.exKs0 Lemmas.Ledger.ixD2 (Or.inl rfl) Lemmas.Deepen3.exValid0).take 0)
+    Lemmas.Deepen3.exAllReady0 (by decide)).1
+example : Lemmas.Deepen3.SInv Lemmas.Deepen3.exSt Lemmas.Deepen3.exKs0
+    [Lemmas.Ledger.hxG, Lemmas.Ledger.hxB1, Lemmas.Ledger.ixD2] Lemmas.Ledger.obS0 0 Lemmas.Deepen3.exX0.P
+    Lemmas.Deepen3.exX0.V :=
+  ⟨rfl, rfl, (Lemmas.Ledger.inv_env_chain (Lemmas.Deepen3.lenv Lemmas.Deepen3.exSt Lemmas.Deepen3.exKs0) _ _).1
+    Lemmas.Deepen3.exInv0, rfl, by decide, fun _ => rfl⟩
+/-- … of `crash_equiv_pending`: creation, quiet crash, an unconfirmed transaction new to both seen-sets, another
+    quiet crash -/
+example : Lemmas.Deepen3.okP 2 s0 s0 [.ev (.create "W1"), .ev .crash, .recvTx ⟨"u9", false, [⟨"zz", 0, 0⟩], [⟨"W1/0", 5, .std⟩]⟩,
+    .ev (.newAddr "W1" false), .ev .crash] = true := by decide
+/-- … of `removal_resumes_anywhere` / `import_resumes_anywhere` (k = 0 is the quiet starting point itself; k ≥ 1
+    needs a wallet with more credits than the step size) -/
+example : Lemmas.Deepen3.removePrefix 10 2 sRem.env "W1" (Lemmas.Deepen3.addrsOf sRem.V.keys "W1") 0 sRem.P sRem.V =
+    some (sRem.P, sRem.V) ∧ AMap.get sRem.P.ks "W1" = some {} := ⟨rfl, by decide⟩
+example : Lemmas.Deepen3.importPrefix 1000 2 s0.env "W9" 0 pImp (bootVol pImp) = some (pImp, bootVol pImp) ∧
+    Lemmas.Deepen3.importDone pImp "W9" = false ∧ AMap.get pImp.led.status "W9" = some ⟨some 0, false⟩ :=
+  ⟨rfl, by decide, by decide⟩
 
 end MW.Props.C06
